@@ -91,6 +91,18 @@ def check_synth(case, rec):
             raise Violation('feature-column-changed', c)
     if n and (got[0] or got[-1]):
         raise Violation('first-or-last-labelled', '')
+    # threshold tuning workflow: the labelled table is edited (rows swapped) and labelled again with the same settings
+    if n >= 4:
+        edited = out.copy()
+        vals = edited[COLS].values.copy()
+        vals[[1, n - 2]] = vals[[n - 2, 1]]
+        vals[1:n - 1] = vals[1:n - 1][::-1]
+        edited[COLS] = vals
+        base = edited[COLS + ['period']].copy()
+        relab = guarded(detect_bursts_cycles, edited, **th)
+        exp_edit = ref.ref_labels_cycles(base, th)
+        if not np.array_equal(relab['is_burst'].values, exp_edit):
+            raise Violation('relabel-after-edit-differs-from-rule', 'second call with the same thresholds on the edited table')
     # metamorphic: raising thresholds / min_n_cycles can only remove labels
     th2 = gen.copy_json(case['th2'])
     got2 = guarded(detect_bursts_cycles, df.copy(), **th2)['is_burst'].values
